@@ -451,6 +451,9 @@ func evalGen(r *rand.Rand, tier string, n int) []*wire.Case {
 		"let m = [43, 10, 13, 41, 11, 12, 22, 40, 20, 23, 21, 33, 31, 30, 32, 42]; let s = sort(m, fn (a, b) { return a / 10 > b / 10; }); any(s, fn (x) { print(x); return 0; });",
 		"let m = [5, 3, 9, 1, 7, 3, 5, 9, 1, 7, 2, 8, 4, 6, 0, 2, 8, 4, 6, 0]; let s = sort(m, fn (a, b) { return a / 2 < b / 2; }); any(s, fn (x) { print(x); return 0; }); print(len(s));",
 		"let m = [3, 1, 2, 1, 3, 2, 1, 2, 3, 1, 2, 3]; any(sort(m, fn (a, b) { return 0; }), fn (x) { print(x); return 0; });")
+	// the logic operators evaluate both operands, left then right, whatever the left one is: effects and errors of the right one count
+	add("d-logic-both-operands", "let n = 0; fn bump(v) { n = n + 1; print(n); return v; } print(0 && bump(1)); print(1 || bump(0)); print(1 && bump(1)); print(0 || bump(0)); print(0.0 && bump(2)); print(2.5 || bump(0)); print(n);",
+		"print(0 && \"s\");", "print(1 || \"s\");", "print(0 && nosuchname);", "print(1 || (1 / 0));", "print(1.5 || nosuchfn(1));", "print(0 && rand()); print(rand());", "print(1 || null);", "print(0 && [1]);")
 	add("d-compare", "print(1 < 2); print(2 <= 2); print(3 > 4); print(1 == 1.0); print(1 != 2); print(1 <> 1); print(2 && 0); print(0 || 0.0); print(0 || \"s\" == 1);")
 	add("d-errors", "print(1 / 0);", "print(1.0 / 0);", "print(\"a\" + 1);", "print(nope);", "fn f(a) { return a; } print(f());", "let a = 1; let a = 2;", "print(5 / (2 - 2));", "print(type(1)); print(type(\"s\")); print(type(null)); print(type([1])); print(type(print)); print(type(fn(){ return 1; }));")
 	add("d-fn-args", "let a = 1; let b = 2; fn second(b, a) { return a; } print(second(a, b)); print(second(b, a));",
